@@ -2,7 +2,7 @@
 # commit.sh "<message>" : run every quick check on the unchanged tree; commit only if all are silent
 cd /verif
 if [ -n "$(git -C /repo status --short)" ]; then echo "REFUSED: /repo working tree is dirty"; exit 1; fi
-OUT=$(./bpv all 2>&1)
+OUT=$(for i in 01 02 03 04 05 06 07 08 09 10 11 12 13 14 15 16 17 18; do ./bpv check C$i 2>&1; done)
 BAD=$(echo "$OUT" | grep "^\[C" | grep -v "violations=0")
 N=$(echo "$OUT" | grep -c "^\[C")
 if [ -n "$BAD" ] || [ "$N" != "18" ]; then echo "REFUSED: checks not silent ($N run)"; echo "$BAD"; exit 1; fi
